@@ -88,6 +88,15 @@ def configs():
         schemas["Uni"] = {"oneOf": [R(c) for c in ("Alpha", "Beta", "Gamma")], "discriminator": {"propertyName": "kind"}}
         out.append({"name": f"oneOf/const-{why}", "spec": wrap(schemas),
                     "unions": [{"name": "Uni", "kind": "union", "prop": "kind", "mapping": {}, "members": ["Alpha", "Beta", "Gamma"], "base": None, "implicit": True}]})
+    # ---- members that refer back to the union (they are boxed in the enum)
+    for kw in ("oneOf", "anyOf"):
+        schemas = {"Alpha": {"type": "object", "required": ["kind"], "properties": {"kind": {"type": "string"}, "av": {"type": "string"}}},
+                   "Beta": {"type": "object", "required": ["kind"], "properties": {"kind": {"type": "string"}, "bv": {"type": "integer"}, "arg": R("Uni")}},
+                   "Gamma": {"type": "object", "required": ["kind"], "properties": {"kind": {"type": "string"}, "gv": {"type": "boolean"}, "terms": {"type": "array", "items": R("Uni")}}}}
+        mapping = {"a": "Alpha", "b": "Beta", "g": "Gamma", "g2": "Gamma"}
+        schemas["Uni"] = {kw: [R("Alpha"), R("Beta"), R("Gamma")], "discriminator": {"propertyName": "kind", "mapping": {t: f"#/components/schemas/{c}" for t, c in mapping.items()}}}
+        out.append({"name": f"{kw}/cyclic-members", "spec": wrap(schemas),
+                    "unions": [{"name": "Uni", "kind": "union", "prop": "kind", "mapping": mapping, "members": ["Alpha", "Beta", "Gamma"], "base": None}]})
     # ---- F: nested unions: a member of the outer union is itself a discriminated union
     schemas = {}
     for c in ("Alpha", "Beta", "Gamma"):
